@@ -137,6 +137,19 @@ class WorldA:
         self.loc = {}
         self._loc_keepalive = []
 
+    def _guard(self, what: str, fn: Any) -> Any:
+        """Call into the code under test where failing is not an option the properties leave open
+        (re-initialising, listing the state, recompiling a compiled circuit): an exception there is
+        reported as a violation (I4) with its cause, not as a failure of the harness."""
+        try:
+            return fn()
+        except (HarnessError, Violation, SimFault):
+            raise
+        except MemoryError:
+            raise
+        except Exception as e:
+            raise Violation("I4", f"{what} raised {type(e).__name__}: {str(e)[:140]}")
+
     def alive(self, kind: str | None = None) -> list[Circ]:
         return [
             self.circs[n]
@@ -682,7 +695,7 @@ class WorldA:
             # are not - one more in-place update; everything derived must follow it
             try:
                 with FAULT_SEAM.arm(fault["at"], fault.get("when", "before")):
-                    c.cc.reset_parameters()
+                    self._guard(f"reset_parameters() of {c.name}", c.cc.reset_parameters)
                 self.tr.count("fault:not-reached")
             except SimFault:
                 self.tr.count(f"fault:fired:{FAULT_SEAM.last_fired}")
@@ -693,7 +706,7 @@ class WorldA:
                     self._mutated(self.circs[b])
                 return {"status": "faulted", "mutated": changed, "recheck": True}
         else:
-            c.cc.reset_parameters()
+            self._guard(f"reset_parameters() of {c.name}", c.cc.reset_parameters)
         info: dict[str, Any] = {"status": "ok", "reset": c}
         if c.kind == "base":
             self._mutated(c)
@@ -722,7 +735,7 @@ class WorldA:
         n = int(op.get("count", 10))
         for j in range(n):
             seed_rng(op["seed"] + 101 * j)
-            c.cc.reset_parameters()
+            self._guard(f"reset_parameters() #{j + 1} of {c.name}", c.cc.reset_parameters)
             for fn in self.on_reset:
                 fn(c, j)
         self.tr.count("resets-in-bursts", n)
@@ -772,7 +785,7 @@ class WorldA:
         if c is None:
             return {"status": "noop"}
         buf = io.BytesIO()
-        sd = c.cc.state_dict()
+        sd = self._guard(f"state_dict() of {c.name}", c.cc.state_dict)
         torch.save(sd, buf)
         vers = {b: self.circs[b].version for b in c.bases}
         digs = {b: self.params_digest(self.circs[b]) for b in c.bases}
@@ -864,7 +877,7 @@ class WorldA:
         c = self.get(op["target"])
         if c is None:
             return {"status": "noop"}
-        cc = self.ctx.compile(c.sc)
+        cc = self._guard(f"compiling the already compiled {c.name} again", lambda: self.ctx.compile(c.sc))
         if cc is not c.cc:
             # memoisation is C18's subject (R1 there); here the previously compiled object
             # stays the tracked one and must keep all its invariants
